@@ -174,7 +174,7 @@ OWN = {
             "Sweep.SelfConsistent", "Sweep.centers", "Sweep.distances", "Sweep.labels", "Sweep.center_indices",
             "PamStart.SelfConsistent", "NoException", "ControlFlow"),
     "C02": ("Iterate.", "Stop.", "TwoApprox", "Start.", "NoException", "ControlFlow", "Result.distances",
-            "Result.labels", "Result.center_indices"),
+            "Result.labels", "Result.center_indices", "Result.inputs", "Result.reproducible"),
     "C09": ("Propose.", "Accept.", "Sweep.", "Result.HybridNoWorse", "Result.reproducible", "PamStart.",
             "NoException", "ControlFlow", "Result.center_indices", "Result.centers"),
 }
